@@ -88,7 +88,7 @@ Section Generic.
     ss_finish (get_stream k i) = (res, s') -> I (with_stream k i (fun _ => s')) m.
   Hypothesis I_reset : forall k m i code app, I k m -> i < n ->
     I (with_stream k i (fun s => ss_reset s code app)) m.
-  Hypothesis I_tx : forall k m t cap c md k' fs, I k m -> t < n + 1 -> c < 4 ->
+  Hypothesis I_tx : forall k m t cap c md k' fs, I k m -> t < n + 1 -> c < 4 -> cap < 65536 ->
     conn_transmit salt k t cap c md = (k', fs) ->
     exists m', chk_frames (chk salt n) n m fs = Some m' /\ I k' m'.
   Hypothesis I_ack : forall k m lo hi, I k m -> I (conn_ack k lo hi) m.
@@ -106,10 +106,10 @@ Section Generic.
   Lemma mod_n_lt : forall x, x mod n < n.
   Proof. intros. apply N.mod_lt. lia. Qed.
 
-  Lemma walk_run_ops : forall fuel k m ops, I k m ->
-    walk (chk salt n) fuel n m ops (run_ops fuel salt n k ops) = true.
+  Lemma walk_run_ops : forall fuel k m ops rest, I k m ->
+    walk (chk salt n) fuel n m ops (run_ops fuel salt n k ops ++ rest) = true.
   Proof.
-    induction fuel as [|fuel IH]; intros k m ops HI; [reflexivity|].
+    induction fuel as [|fuel IH]; intros k m ops rest HI; [reflexivity|].
     destruct ops as [|op r]; [reflexivity|].
     cbn [walk run_ops].
     destruct (op_cases op) as [E|[E|[E|[E|[E|[E|[E|[E|[E|[E1 E2]]]]]]]]]]; try subst op.
@@ -117,22 +117,22 @@ Section Generic.
       unfold step, wstep. destruct (nx r) as [a r1]. destruct (nx r1) as [b r2].
       destruct (ss_push (get_stream k (zN a mod n)) (zN b mod 4096)) as [res s'] eqn:Ep.
       destruct (I_push _ _ _ _ _ _ HI (mod_n_lt _) Ep) as [Hr HI'].
-      cbn [app].
+      cbn [app]. rewrite <- ?app_assoc.
       replace ((-1 <=? res) && (res <=? Nz (zN b mod 4096)))%Z with true
         by (symmetry; apply andb_true_intro; split; apply Z.leb_le; lia).
       rewrite wskip_render by (eapply I_len; eauto). apply IH; assumption.
     - (* finish *)
       unfold step, wstep. destruct (nx r) as [a r1].
       destruct (ss_finish (get_stream k (zN a mod n))) as [res s'] eqn:Ep.
-      cbn [app]. pose proof (I_finish _ _ _ _ _ HI (mod_n_lt _) Ep) as HI'.
+      cbn [app]. rewrite <- ?app_assoc. pose proof (I_finish _ _ _ _ _ HI (mod_n_lt _) Ep) as HI'.
       rewrite wskip_render by (eapply I_len; eauto). apply IH; assumption.
     - (* reset *)
       unfold step, wstep. destruct (nx r) as [a r1]. destruct (nx r1) as [b r2].
-      cbn [app]. pose proof (I_reset _ _ (zN a mod n) (zN b mod 1024) true HI (mod_n_lt _)) as HI'.
+      cbn [app]. rewrite <- ?app_assoc. pose proof (I_reset _ _ (zN a mod n) (zN b mod 1024) true HI (mod_n_lt _)) as HI'.
       rewrite wskip_render by (eapply I_len; eauto). apply IH; assumption.
     - (* stop_sending *)
       unfold step, wstep. destruct (nx r) as [a r1]. destruct (nx r1) as [b r2].
-      cbn [app]. pose proof (I_reset _ _ (zN a mod n) (zN b mod 1024) false HI (mod_n_lt _)) as HI'.
+      cbn [app]. rewrite <- ?app_assoc. pose proof (I_reset _ _ (zN a mod n) (zN b mod 1024) false HI (mod_n_lt _)) as HI'.
       rewrite wskip_render by (eapply I_len; eauto). apply IH; assumption.
     - (* transmit *)
       unfold step, wstep. destruct (nx r) as [a r1]. destruct (nx r1) as [b r2].
@@ -140,10 +140,11 @@ Section Generic.
       destruct (conn_transmit salt k (zN a mod (n + 1)) (zN b mod 65536) (zN c mod 4) (zN d mod 4)) as [k' fs] eqn:Et.
       assert (Ht : zN a mod (n + 1) < n + 1) by (apply N.mod_lt; lia).
       assert (Hc : zN c mod 4 < 4) by (apply N.mod_lt; lia).
-      destruct (I_tx _ _ _ _ _ _ _ _ HI Ht Hc Et) as [m' [Hchk HI']].
-      unfold render_frames. cbn [app].
+      assert (Hcap : zN b mod 65536 < 65536) by (apply N.mod_lt; lia).
+      destruct (I_tx _ _ _ _ _ _ _ _ HI Ht Hc Hcap Et) as [m' [Hchk HI']].
+      unfold render_frames. cbn [app]. rewrite <- ?app_assoc.
       replace ((0 <=? Z.of_nat (length fs)) &&
-               (Z.of_nat (length fs) <=? Z.of_nat (length (flat_map render_frame fs ++ render_state k' ++ run_ops fuel salt n k' r4))))%Z
+               (Z.of_nat (length fs) <=? Z.of_nat (length (flat_map render_frame fs ++ render_state k' ++ run_ops fuel salt n k' r4 ++ rest))))%Z
         with true.
       2:{ symmetry; apply andb_true_intro; split; apply Z.leb_le; [lia|].
           rewrite app_length. pose proof (render_frames_length fs). lia. }
@@ -151,19 +152,19 @@ Section Generic.
       rewrite wskip_render by (eapply I_len; eauto). apply IH; assumption.
     - (* ack *)
       unfold step, wstep. destruct (nx r) as [a r1]. destruct (nx r1) as [b r2].
-      cbn [app]. pose proof (I_ack _ _ (zN a mod 65536) (zN a mod 65536 + zN b mod 65536) HI) as HI'.
+      cbn [app]. rewrite <- ?app_assoc. pose proof (I_ack _ _ (zN a mod 65536) (zN a mod 65536 + zN b mod 65536) HI) as HI'.
       rewrite wskip_render by (eapply I_len; eauto). apply IH; assumption.
     - (* loss *)
       unfold step, wstep. destruct (nx r) as [a r1]. destruct (nx r1) as [b r2].
-      cbn [app]. pose proof (I_loss _ _ (zN a mod 65536) (zN a mod 65536 + zN b mod 65536) HI) as HI'.
+      cbn [app]. rewrite <- ?app_assoc. pose proof (I_loss _ _ (zN a mod 65536) (zN a mod 65536 + zN b mod 65536) HI) as HI'.
       rewrite wskip_render by (eapply I_len; eauto). apply IH; assumption.
     - (* MAX_STREAM_DATA *)
       unfold step, wstep. destruct (nx r) as [a r1]. destruct (nx r1) as [b r2].
-      cbn [app]. pose proof (I_msd _ _ (zN a mod n) (N.min (zN b) varint_max) HI (mod_n_lt _)) as HI'.
+      cbn [app]. rewrite <- ?app_assoc. pose proof (I_msd _ _ (zN a mod n) (N.min (zN b) varint_max) HI (mod_n_lt _)) as HI'.
       rewrite wskip_render by (eapply I_len; eauto). apply IH; assumption.
     - (* MAX_DATA *)
       unfold step, wstep. destruct (nx r) as [a r1].
-      cbn [app]. pose proof (I_md _ _ (N.min (zN a) varint_max) HI) as HI'.
+      cbn [app]. rewrite <- ?app_assoc. pose proof (I_md _ _ (N.min (zN a) varint_max) HI) as HI'.
       rewrite wskip_render by (eapply I_len; eauto). apply IH; assumption.
     - rewrite E1, E2. reflexivity.
   Qed.
@@ -178,7 +179,8 @@ Definition R03 (s : sst) (ms : mstream) : Prop :=
   m_used ms <= f_acq (s_fc s) /\ f_maxsd (s_fc s) <= m_lim ms /\ s_rst_final s <= f_acq (s_fc s)
   /\ s_toff s <= s_total s
   /\ (s_toff s <= f_acq (s_fc s) /\ s_toff s <= f_maxsd (s_fc s))
-  /\ ((s_ds s = 2 \/ s_ds s = 3 \/ s_ds s = 4) -> s_total s <= f_acq (s_fc s) /\ s_total s <= f_maxsd (s_fc s)).
+  /\ ((s_ds s = 2 \/ s_ds s = 3 \/ s_ds s = 4) -> s_total s <= f_acq (s_fc s) /\ s_total s <= f_maxsd (s_fc s))
+  /\ (f_st (s_fc s) = 3 -> s_ds s = 5 \/ s_ds s = 6).
 
 Fixpoint Rall (i : nat) (l : list sst) (ml : list mstream) : Prop :=
   match l, ml with
@@ -274,15 +276,17 @@ Lemma keeps_push : forall len, keeps (fun s => snd (ss_push s len)).
 Proof.
   intros len s. unfold ss_push. dif; cbn; (split; [reflexivity|split; [reflexivity|]]);
     intros ms H; unfold R03 in *; cbn; try assumption.
-  b2p. destruct H as (H1 & H2 & H3 & H4 & H5 & H6). repeat split; try tauto; try lia.
+  b2p. destruct H as (H1 & H2 & H3 & H4 & H5 & H6 & H7). repeat split; try tauto; try lia.
 Qed.
 
 Ltac keeps_tac :=
   let ms := fresh "ms" in let H := fresh "H" in
   intros ms H; unfold R03 in *; cbn in *; b2p;
   let H1 := fresh in let H2 := fresh in let H3 := fresh in let H4 := fresh in let H5 := fresh in let H6 := fresh in
-  destruct H as (H1 & H2 & H3 & H4 & H5 & H6);
-  repeat split; try tauto; try lia; try (intros; apply H6; lia); try (intros; exfalso; lia).
+  let H7 := fresh in
+  destruct H as (H1 & H2 & H3 & H4 & H5 & H6 & H7);
+  repeat split; try tauto; try lia; try (intros; apply H6; lia); try (intros; exfalso; lia);
+  try (intros; apply H7; lia).
 
 Lemma keeps_finish : keeps (fun s => snd (ss_finish s)).
 Proof.
@@ -304,14 +308,16 @@ Lemma keeps_loss : forall lo hi, keeps (fun s => ss_loss s lo hi).
 Proof.
   intros lo hi s. unfold ss_loss. cbv zeta. cbn [s_sid s_fc s_rst_final s_toff s_total s_ds].
   dif; cbn; (split; [reflexivity|split; [reflexivity|]]); keeps_tac.
+  all: destruct (f_st (s_fc s) =? 3) eqn:E3; b2p; intros; try discriminate; try lia;
+    match goal with Hx : f_st (s_fc ?z) = 3 -> _ |- _ => specialize (Hx E3); lia end.
 Qed.
 
 Lemma msd_R03 : forall v s ms, R03 s ms ->
   R03 (ss_max_stream_data s v) (mk_ms (m_w ms) (m_hi ms) (m_fin ms) (m_rst ms) (N.max (m_lim ms) v)).
 Proof.
   intros v s ms H. unfold ss_max_stream_data, sfc_set_max_sd. dif; unfold R03, m_used in *; cbn in *; b2p;
-    destruct H as (H1 & H2 & H3 & H4 & H5 & H6); repeat split; try tauto; try lia;
-    try (intros Hd; specialize (H6 Hd); lia).
+    destruct H as (H1 & H2 & H3 & H4 & H5 & H6 & H7); repeat split; try tauto; try lia;
+    try (intros Hd; specialize (H6 Hd); lia); try (intros; apply H7; lia).
 Qed.
 
 Lemma msd_sid : forall v s, s_sid (ss_max_stream_data s v) = s_sid s.
@@ -341,7 +347,7 @@ Qed.
 Lemma acquire_ok : forall c f e c' f' w, sfc_acquire c f e = (c', f', w) ->
   c_total c' = c_total c /\ f_acq f' + c_avail c' = f_acq f + c_avail c /\ f_acq f <= f_acq f' /\
   f_maxsd f' = f_maxsd f /\ w = N.min (f_maxsd f') (f_acq f') /\
-  (sfc_is_blocked f' = false -> f_st f <> 3 -> e <= w).
+  (sfc_is_blocked f' = false -> f_st f <> 3 -> e <= w) /\ (f_st f' = 3 -> f_st f = 3).
 Proof.
   intros c f e c' f' w H. unfold sfc_acquire in H.
   destruct (f_st f =? 3) eqn:E3.
@@ -543,4 +549,635 @@ Proof.
   replace (lo + d - lo) with d by lia.
   split; [eexists; eexists; split; [reflexivity|lia]|].
   destruct (w - lo <? hi1 - lo) eqn:Ewl; b2p; repeat split; try lia.
+Qed.
+
+(* ---------------------------------------------------------------------------------------------- *)
+(* C03: a whole packet keeps the invariant and is accepted frame by frame                           *)
+
+Lemma vlen_bounds : forall x, 1 <= vlen x /\ (x <= 65535 -> vlen x <= 4) /\ (2 <= vlen x -> 64 <= x).
+Proof.
+  intros x. unfold vlen.
+  destruct (x <? 64) eqn:A1; destruct (x <? 16384) eqn:A2; destruct (x <? 1073741824) eqn:A3; b2p; lia.
+Qed.
+
+Lemma vlen_ge64 : forall x, 64 <= x -> 2 <= vlen x.
+Proof.
+  intros x H. unfold vlen.
+  destruct (x <? 64) eqn:A1; destruct (x <? 16384) eqn:A2; destruct (x <? 1073741824) eqn:A3; b2p; lia.
+Qed.
+
+Lemma stream_fit_partial : forall sid off len cap d size,
+  stream_fit sid off len cap = Some (d, size) -> len <= 65535 -> d < len ->
+  cap - size <= 3 /\ (0 < cap - size -> 64 <= len).
+Proof.
+  intros sid off len cap d size H Hl Hd. unfold stream_fit in H.
+  set (fixed := 1 + vlen sid + (if off =? 0 then 0 else vlen off)) in *.
+  destruct (cap <? fixed) eqn:E1; [discriminate|]. b2p.
+  destruct (N.min (cap - fixed) len =? cap - fixed) eqn:E2.
+  - injection H as <- <-. b2p. lia.
+  - destruct (cap - fixed <? vlen (N.min (cap - fixed) len)) eqn:E3; [discriminate|].
+    injection H as <- <-. b2p.
+    assert (Em : N.min (cap - fixed) len = len) by lia. rewrite Em in *.
+    pose proof (vlen_bounds len) as (B1 & B2 & B3).
+    pose proof (vlen_bounds (N.min (cap - fixed - vlen len) len)) as (C1 & _ & _).
+    lia.
+Qed.
+
+Lemma GI_step : forall n pre s post c m s' c',
+  GI n pre s post c m -> s_sid s' = s_sid s -> c_total c' = c_total c ->
+  f_acq (s_fc s') + c_avail c' = f_acq (s_fc s) + c_avail c ->
+  (forall ms, R03 s ms -> R03 s' ms) -> GI n pre s' post c' m.
+Proof.
+  intros n pre s post c m s' c' (H1 & H2 & H3 & H4) Hs Ht Ha HR. unfold GI.
+  rewrite app_length in *. cbn [length] in *. repeat split; auto.
+  - pose proof (Rall_replace pre 0 s s' post (m_streams m) (fun x => x) H2 Hs HR) as H. now rewrite upd_ms_id in H.
+  - rewrite sum_acq_mid in *. lia.
+  - lia.
+Qed.
+
+Section C03tx.
+  Variables salt n : N.
+
+  Definition St (pre post : list sst) (m0 : mon) (s : sst) (c : cfc) (p : pkt) : Prop :=
+    exists m, GI n pre s post c m /\ Acc salt n m0 p m.
+
+  Definition small_rest (p' : pkt) (req : N) : Prop := p_rem p' <= 3 /\ (0 < p_rem p' -> 64 <= req).
+
+  Lemma tx_interval_ok : forall pre post m0 s c p lo hi r s' c' p',
+    St pre post m0 s c p -> p_rem p <= 65535 ->
+    tx_interval salt s c p lo hi = (r, s', c', p') ->
+    St pre post m0 s' c' p' /\ p_rem p' <= p_rem p /\ p_c p' = p_c p /\ p_pn p' = p_pn p /\
+    s_total s' = s_total s /\ s_toff s' = s_toff s /\ s_lost s' = s_lost s /\
+    (s_ds s' = s_ds s \/ ((s_ds s = 1 \/ s_ds s = 3) /\ s_ds s' = 2)) /\
+    match r with
+    | None => True
+    | Some h => lo < h /\ h <= hi /\ h <= f_acq (s_fc s') /\ h <= f_maxsd (s_fc s') /\
+                (hi <= s_total s -> h < hi ->
+                 sfc_is_blocked (s_fc s') = true \/ f_st (s_fc s') = 3 \/ small_rest p' (hi - lo))
+    end.
+  Proof.
+    intros pre post m0 s c p lo hi r s' c' p' [m [HG HA]] Hrem H.
+    unfold tx_interval in H. cbv zeta in H.
+    match type of H with context [if ?b then _ else _] => destruct b eqn:E0 end.
+    { injection H as <- <- <- <-. repeat split; auto; try lia. exists m; auto. }
+    match type of H with context [sfc_acquire c (s_fc s) ?e] =>
+      set (hi1 := e) in *; destruct (sfc_acquire c (s_fc s) hi1) as [[c1 f1] w] eqn:Ea end.
+    assert (A8 : f_st (s_fc s) = 3 -> f_st f1 = 3).
+    { intros E3. unfold sfc_acquire in Ea. apply N.eqb_eq in E3. rewrite E3 in Ea. injection Ea as _ <- _.
+      now apply N.eqb_eq. }
+    apply acquire_ok in Ea. destruct Ea as (A1 & A2 & A3 & A4 & A5 & A6 & A7).
+    assert (Hh1 : hi1 <= hi /\ (hi1 < hi -> hi1 = lo + p_rem p) /\ hi1 - lo <= 65535)
+      by (unfold hi1; destruct (N.min (p_rem p) 65535 <? hi - lo) eqn:Ec; b2p; lia).
+    (* the stream with the new flow controller state *)
+    assert (HG1 : GI n pre (set_fc s f1) post c1 m).
+    { eapply GI_step; eauto. intros ms (R1 & R2 & R3 & R4 & R5 & R6 & R7). unfold R03. cbn.
+      repeat split; try lia; try (intros Hd; specialize (R6 Hd); lia); try (intros Hs; apply R7; auto). }
+    destruct (w <=? lo) eqn:Ew.
+    { injection H as <- <- <- <-. repeat split; auto; try lia. exists m; auto. }
+    match type of H with context [stream_fit ?a ?b ?l ?q] => destruct (stream_fit a b l q) as [[d size]|] eqn:Ef end.
+    2:{ injection H as <- <- <- <-. repeat split; auto; try lia. exists m; auto. }
+    destruct (d =? 0) eqn:Ed.
+    { injection H as <- <- <- <-. repeat split; auto; try lia. exists m; auto. }
+    pose proof (stream_fit_le _ _ _ _ _ _ Ef) as [Fd Fs].
+    clear E0. b2p.
+    set (hi2 := if w - lo <? hi1 - lo then w else hi1) in *.
+    assert (Hh2 : hi2 <= hi1 /\ hi2 <= w /\ lo < hi2) by (unfold hi2; destruct (w - lo <? hi1 - lo) eqn:Ewl; b2p; lia).
+    (* the frame is accepted *)
+    assert (HGf : exists m', GI n pre (set_fc s f1) post c1 m' /\
+              Acc salt n m0 (p_write p size (mk_frame 1 (s_sid s) lo 0
+                   (is_finishing s && (hi2 =? s_total s) && (d =? hi2 - lo)) (slice salt (s_k s) lo d))) m').
+    { apply (emit_stream salt n pre (set_fc s f1) post c1 m m0 p size lo (slice salt (s_k s) lo d)); auto;
+        rewrite slice_length; cbn; lia. }
+    destruct HGf as [m' [HG' HA']].
+    set (fin := is_finishing s && (hi2 =? s_total s) && (d =? hi2 - lo)) in *.
+    assert (Hfin : fin = true -> lo + d = s_total s) by (unfold fin; intros Hf; b2p; lia).
+    destruct (fin && ((s_ds s =? 1) || (s_ds s =? 3)))%bool eqn:Esf; injection H as <- <- <- <-.
+    - (* the FIN goes with this frame *)
+      assert (Hf : fin = true) by (b2p; assumption). specialize (Hfin Hf).
+      assert (Hds : s_ds s = 1 \/ s_ds s = 3) by (b2p; auto).
+      split.
+      { exists m'. split; [|exact HA'].
+        eapply GI_step; eauto. intros ms (R1 & R2 & R3 & R4 & R5 & R6 & R7). unfold R03 in *. cbn in *.
+        repeat split; try lia; try tauto. }
+      cbn. repeat split; try lia; auto.
+    - split.
+      { exists m'. split; [|exact HA'].
+        eapply GI_step; eauto; intros ms HR; exact HR. }
+      cbn. repeat split; try lia; auto.
+      intros Hhi Hlt.
+      destruct (sfc_is_blocked f1) eqn:Eb; [left; reflexivity|].
+      destruct (N.eq_dec (f_st (s_fc s)) 3) as [E3|E3].
+      { right; left. exact (A8 E3). }
+      specialize (A6 eq_refl E3).
+      right; right. unfold small_rest. cbn [p_rem p_write].
+      assert (Hw : hi2 = hi1) by (unfold hi2; destruct (w - lo <? hi1 - lo) eqn:Ewl; b2p; lia).
+      assert (Hlen : hi2 - lo <= 65535) by lia.
+      assert (Hd : d < hi2 - lo \/ (d = hi2 - lo /\ hi1 < hi)) by lia.
+      destruct Hd as [Hd|[Hd Hc]].
+      + pose proof (stream_fit_partial _ _ _ _ _ _ Ef Hlen Hd) as [P1 P2]. split; [lia|]. intros Hp. specialize (P2 Hp). lia.
+      + destruct Hh1 as [_ [Hh1 _]]. specialize (Hh1 Hc). exfalso.
+        unfold stream_fit in Ef.
+        set (fixed := 1 + vlen (s_sid s) + (if lo =? 0 then 0 else vlen lo)) in *.
+        pose proof (vlen_bounds (s_sid s)).
+        clear Esf Hfin HA' HG' HG1 HA HG.
+        destruct (p_rem p <? fixed) eqn:E1; [discriminate|].
+        destruct (N.min (p_rem p - fixed) (hi2 - lo) =? p_rem p - fixed) eqn:E2.
+        * injection Ef as Ef1 Ef2. apply N.ltb_ge in E1. apply N.eqb_eq in E2. lia.
+        * destruct (p_rem p - fixed <? vlen (N.min (p_rem p - fixed) (hi2 - lo))); [discriminate|].
+          injection Ef as Ef1 Ef2. apply N.ltb_ge in E1. apply N.eqb_neq in E2. lia.
+  Qed.
+
+  (* facts every transmit function preserves about the fields it does not own *)
+  Definition same_frame (s s' : sst) (p p' : pkt) : Prop :=
+    p_rem p' <= p_rem p /\ p_c p' = p_c p /\ p_pn p' = p_pn p /\
+    s_total s' = s_total s /\ s_toff s' = s_toff s /\
+    (s_ds s' = s_ds s \/ ((s_ds s = 1 \/ s_ds s = 3) /\ s_ds s' = 2)).
+
+  Lemma tx_set_ok : forall lost pre post m0 s c p r l' s' c' p',
+    St pre post m0 s c p -> p_rem p <= 65535 ->
+    tx_set salt lost s c p = (r, l', s', c', p') ->
+    St pre post m0 s' c' p' /\ same_frame s s' p p'.
+  Proof.
+    induction lost as [|[a b] rest IH]; intros pre post m0 s c p r l' s' c' p' HS Hrem H; cbn [tx_set] in H.
+    - injection H as <- <- <- <- <-. split; [assumption|]. unfold same_frame. repeat split; auto; lia.
+    - destruct (tx_interval salt s c p a b) as [[[r1 s1] c1] p1] eqn:Ei.
+      pose proof (tx_interval_ok _ _ _ _ _ _ _ _ _ _ _ _ HS Hrem Ei) as (HS1 & F1 & F2 & F3 & F4 & F5 & F6 & F7 & _).
+      destruct r1 as [h|].
+      + destruct (h <? b).
+        * injection H as <- <- <- <- <-. split; [assumption|]. unfold same_frame. repeat split; auto.
+        * destruct (tx_set salt rest s1 c1 p1) as [[[[r2 l2] s2] c2] p2] eqn:Es.
+          assert (Hrem1 : p_rem p1 <= 65535) by lia.
+          destruct (IH _ _ _ _ _ _ _ _ _ _ _ HS1 Hrem1 Es) as (HS2 & G1 & G2 & G3 & G4 & G5 & G6).
+          assert (same_frame s s2 p p2).
+          { unfold same_frame. repeat split; try lia; try congruence. }
+          destruct r2; injection H as <- <- <- <- <-; split; assumption.
+      + injection H as <- <- <- <- <-. split; [assumption|]. unfold same_frame. repeat split; auto.
+  Qed.
+
+  Definition fin_fixed (s : sst) : N :=
+    1 + vlen (s_sid s) + (if s_total s =? 0 then 0 else vlen (s_total s)).
+
+  Lemma tx_fin_ok : forall pre post m0 s c p r s' p',
+    St pre post m0 s c p ->
+    ((s_ds s = 1 \/ s_ds s = 3) -> sfc_is_blocked (s_fc s) = false -> fin_fixed s <= p_rem p ->
+     s_total s <= f_acq (s_fc s) /\ s_total s <= f_maxsd (s_fc s)) ->
+    tx_fin s p = (r, s', p') ->
+    St pre post m0 s' c p'.
+  Proof.
+    intros pre post m0 s c p r s' p' [m [HG HA]] Hpre H. unfold tx_fin in H.
+    destruct (sfc_is_blocked (s_fc s)) eqn:Eb; [injection H as <- <- <-; exists m; auto|].
+    destruct ((s_ds s =? 1) || (s_ds s =? 3))%bool eqn:Ed; [|injection H as <- <- <-; exists m; auto].
+    fold (fin_fixed s) in H.
+    destruct (p_rem p <? fin_fixed s) eqn:Er; [injection H as <- <- <-; exists m; auto|].
+    assert (Hds : s_ds s = 1 \/ s_ds s = 3) by (b2p; auto).
+    apply N.ltb_ge in Er. destruct (Hpre Hds eq_refl Er) as [Ha Hm].
+    injection H as <- <- <-.
+    destruct (emit_stream salt n pre s post c m m0 p
+                (if p_rem p - fin_fixed s =? 0 then fin_fixed s else fin_fixed s + 1) (s_total s) [] true HG HA)
+      as [m' [HG' HA']]; cbn [length]; try lia.
+    exists m'. split; [|exact HA'].
+    eapply GI_step; eauto. intros ms (R1 & R2 & R3 & R4 & R5 & R6 & R7). unfold R03 in *. cbn in *.
+    repeat split; try lia; try tauto.
+  Qed.
+
+  Lemma St_R03 : forall pre post m0 s c p, St pre post m0 s c p -> exists ms, R03 s ms.
+  Proof.
+    intros pre post m0 s c p [m [(H1 & H2 & _) _]]. destruct (Rall_at _ _ _ _ _ H2) as [_ HR]. eauto.
+  Qed.
+
+  Lemma St_upd : forall pre post m0 s c p s',
+    St pre post m0 s c p -> s_sid s' = s_sid s -> f_acq (s_fc s') = f_acq (s_fc s) ->
+    (forall ms, R03 s ms -> R03 s' ms) -> St pre post m0 s' c p.
+  Proof.
+    intros pre post m0 s c p s' [m [HG HA]] Hs Ha HR. exists m. split; [|exact HA].
+    eapply GI_step; eauto. lia.
+  Qed.
+
+  Lemma ds_transmit_impl_ok : forall pre post m0 s c p r s' c' p',
+    St pre post m0 s c p -> p_rem p <= 65535 ->
+    ds_transmit_impl salt s c p = (r, s', c', p') ->
+    St pre post m0 s' c' p' /\ p_rem p' <= p_rem p /\ p_c p' = p_c p /\ p_pn p' = p_pn p.
+  Proof.
+    intros pre post m0 s c p r s' c' p' HS Hrem H. unfold ds_transmit_impl in H.
+    (* lost ranges first *)
+    assert (Hstep1 : exists r1 l1 s1 c1 p1,
+      (if can_retransmit (p_c p) then tx_set salt (s_lost s) s c p else (Some false, s_lost s, s, c, p)) = (r1, l1, s1, c1, p1)
+      /\ St pre post m0 s1 c1 p1 /\ same_frame s s1 p p1).
+    { destruct (can_retransmit (p_c p)).
+      - destruct (tx_set salt (s_lost s) s c p) as [[[[r1 l1] s1] c1] p1] eqn:Es.
+        destruct (tx_set_ok _ _ _ _ _ _ _ _ _ _ _ _ HS Hrem Es) as [HS1 HF].
+        exists r1, l1, s1, c1, p1. split; [reflexivity|]. split; assumption.
+      - exists (Some false), (s_lost s), s, c, p. split; [reflexivity|]. split; [assumption|].
+        unfold same_frame. repeat split; auto; lia. }
+    destruct Hstep1 as (r1 & l1 & s1 & c1 & p1 & E1 & HS1 & (F1 & F2 & F3 & F4 & F5 & F6)).
+    rewrite E1 in H. clear E1.
+    assert (HS1' : St pre post m0 (set_lost s1 l1) c1 p1) by (eapply St_upd; eauto).
+    set (s1' := set_lost s1 l1) in *.
+    destruct r1 as [b1|]; [|injection H as <- <- <- <-; repeat split; auto].
+    set (blocked := sfc_is_blocked (s_fc s1')) in *.
+    (* new data *)
+    assert (Hstep2 : exists r2 s2 c2 p2,
+      (if negb blocked && can_transmit (p_c p) && (s_toff s1' <? s_total s1')
+       then match tx_interval salt s1' c1 p1 (s_toff s1') (s_total s1') with
+            | (None, s0, c0, p0) => (false, s0, c0, p0)
+            | (Some h, s0, c0, p0) => (true, set_toff s0 h, c0, p0)
+            end
+       else (true, s1', c1, p1)) = (r2, s2, c2, p2)
+      /\ St pre post m0 s2 c2 p2 /\ p_rem p2 <= p_rem p1 /\ p_c p2 = p_c p1 /\ p_pn p2 = p_pn p1 /\
+      (r2 = true -> (s_ds s2 = 1 \/ s_ds s2 = 3) -> sfc_is_blocked (s_fc s2) = false ->
+         ((s_ds s2 = 3 -> can_retransmit (p_c p) = true) /\ (s_ds s2 = 1 -> blocked = false /\ can_transmit (p_c p) = true)) ->
+         fin_fixed s2 <= p_rem p2 ->
+         s_total s2 <= f_acq (s_fc s2) /\ s_total s2 <= f_maxsd (s_fc s2))).
+    { destruct (negb blocked && can_transmit (p_c p) && (s_toff s1' <? s_total s1'))%bool eqn:Ec.
+      - destruct (tx_interval salt s1' c1 p1 (s_toff s1') (s_total s1')) as [[[r0 s0] c0] p0] eqn:Ei.
+        assert (Hrem1 : p_rem p1 <= 65535) by lia.
+        pose proof (tx_interval_ok _ _ _ _ _ _ _ _ _ _ _ _ HS1' Hrem1 Ei) as (HS0 & G1 & G2 & G3 & G4 & G5 & G6 & G7 & G8).
+        destruct r0 as [h|].
+        + destruct G8 as (K1 & K2 & K3 & K4 & K5).
+          exists true, (set_toff s0 h), c0, p0. split; [reflexivity|].
+          assert (HSt : St pre post m0 (set_toff s0 h) c0 p0).
+          { eapply St_upd; eauto. intros ms (R1 & R2 & R3 & R4 & R5 & R6 & R7). unfold R03 in *. cbn in *.
+            repeat split; try lia; try tauto. }
+          split; [exact HSt|]. split; [assumption|]. split; [assumption|]. split; [assumption|].
+          * intros _ Hds Hnb _ Hfit. cbn [set_toff s_ds s_fc s_total] in *.
+            destruct (St_R03 _ _ _ _ _ _ HS0) as [ms (R1 & R2 & R3 & R4 & R5 & R6 & R7)].
+            destruct (N.eq_dec h (s_total s1')) as [Eh|Eh]; [lia|].
+            assert (Hlt : h < s_total s1') by lia.
+            assert (Hle : s_total s1' <= s_total s1') by lia.
+            destruct (K5 Hle Hlt) as [Kb|[K3'|[Ks1 Ks2]]].
+            -- congruence.
+            -- specialize (R7 K3'). lia.
+            -- exfalso. unfold fin_fixed in Hfit. cbn [set_toff s_sid s_total] in Hfit. rewrite G4 in Hfit.
+               pose proof (vlen_bounds (s_sid s0)) as (V1 & _ & _).
+               destruct (N.eq_dec (p_rem p0) 0) as [E0|E0]; [lia|].
+               assert (H64 : 64 <= s_total s1') by lia.
+               pose proof (vlen_ge64 _ H64).
+               destruct (s_total s1' =? 0) eqn:Ez; b2p; lia.
+        + exists false, s0, c0, p0. split; [reflexivity|]. split; [exact HS0|].
+          split; [assumption|]. split; [assumption|]. split; [assumption|]. intros Hf; discriminate.
+      - exists true, s1', c1, p1. split; [reflexivity|]. split; [exact HS1'|].
+        split; [lia|]. split; [reflexivity|]. split; [reflexivity|].
+        intros _ Hds Hnb Hcan Hfit.
+        destruct (St_R03 _ _ _ _ _ _ HS1') as [ms (R1 & R2 & R3 & R4 & R5 & R6 & R7)].
+        destruct Hds as [Hds|Hds].
+        + destruct Hcan as [_ Hcan]. destruct (Hcan Hds) as [Hb Hct].
+          rewrite Hb, Hct in Ec. cbn [negb andb] in Ec. apply N.ltb_ge in Ec. lia.
+        + apply R6. auto. }
+    destruct Hstep2 as (r2 & s2 & c2 & p2 & E2 & HS2 & H21 & H22 & H23 & Hfinpre).
+    rewrite E2 in H. clear E2.
+    destruct r2; cbn [negb] in H; [|injection H as <- <- <- <-; repeat split; auto; try lia; congruence].
+    match type of H with context [if ?b then _ else _] => destruct b eqn:Ecf end.
+    - destruct (tx_fin s2 p2) as [[r3 s3] p3] eqn:Ef. injection H as <- <- <- <-.
+      assert (HS3 : St pre post m0 s3 c2 p3).
+      { eapply tx_fin_ok; eauto. intros Hds Hnb Hfit. apply Hfinpre; auto.
+        split; intros Hd; rewrite Hd in Ecf.
+        - change (3 =? 3) with true in Ecf. change (3 =? 1) with false in Ecf. cbn [andb orb] in Ecf. rewrite orb_false_r in Ecf. exact Ecf.
+        - change (1 =? 3) with false in Ecf. change (1 =? 1) with true in Ecf. cbn [andb orb] in Ecf.
+          b2p. split; assumption. }
+      split; [exact HS3|].
+      unfold tx_fin in Ef. repeat match type of Ef with context [if ?b then _ else _] => destruct b end;
+        injection Ef as <- <- <-; cbn [p_write p_rem p_c p_pn]; repeat split; try lia; congruence.
+    - injection H as <- <- <- <-. repeat split; auto; try lia; congruence.
+  Qed.
+
+  Lemma Acc_blocked : forall m0 p m size k sid v,
+    Acc salt n m0 p m -> k = 3 \/ k = 4 -> Acc salt n m0 (p_write p size (mk_frame k sid v 0 false [])) m.
+  Proof.
+    intros m0 p m size k sid v HA Hk.
+    unfold Acc, p_write in *. cbn [p_out]. rewrite chk_frames_app, HA. cbn [chk_frames].
+    assert (chk03 salt n m (mk_frame k sid v 0 false []) = true) as ->
+      by (unfold chk03; cbn [fr_kind]; destruct Hk as [-> | ->]; reflexivity).
+    f_equal. unfold mon_upd. destruct (frame_stream n _); [|reflexivity].
+    cbn [fr_kind]. destruct Hk as [-> | ->]; reflexivity.
+  Qed.
+
+  Lemma ss_transmit_ok : forall pre post m0 s c p r s' c' p',
+    St pre post m0 s c p -> p_rem p <= 65535 ->
+    ss_transmit salt s c p = (r, s', c', p') ->
+    St pre post m0 s' c' p' /\ p_rem p' <= p_rem p /\ p_c p' = p_c p /\ p_pn p' = p_pn p.
+  Proof.
+    intros pre post m0 s c p r s' c' p' HS Hrem H. unfold ss_transmit in H.
+    (* RESET_STREAM *)
+    assert (Hstep0 : exists r0 s0 p0,
+      (if dlv_try (s_rst s) (p_c p)
+       then if p_rem p <? 1 + vlen (s_sid s) + vlen (s_rst_code s) + vlen (s_rst_final s) then (false, s, p)
+            else (true, set_rst s (DInfl (p_pn p)),
+                  p_write p (1 + vlen (s_sid s) + vlen (s_rst_code s) + vlen (s_rst_final s))
+                    (mk_frame 2 (s_sid s) (s_rst_final s) (s_rst_code s) false []))
+       else (true, s, p)) = (r0, s0, p0)
+      /\ St pre post m0 s0 c p0 /\ p_rem p0 <= p_rem p /\ p_c p0 = p_c p /\ p_pn p0 = p_pn p).
+    { destruct (dlv_try (s_rst s) (p_c p)).
+      - destruct (p_rem p <? _) eqn:Er.
+        + exists false, s, p. repeat split; auto; lia.
+        + destruct HS as [m [HG HA]].
+          destruct (emit_reset salt n pre s post c m m0 p
+                      (1 + vlen (s_sid s) + vlen (s_rst_code s) + vlen (s_rst_final s)) (s_rst_code s) HG HA) as [m' [HG' HA']].
+          eexists true, _, _. split; [reflexivity|]. split.
+          * exists m'. split; [|exact HA']. eapply GI_step; eauto.
+          * cbn. repeat split; lia.
+      - exists true, s, p. repeat split; auto; lia. }
+    destruct Hstep0 as (r0 & s0 & p0 & E0 & HS0 & H01 & H02 & H03). rewrite E0 in H. clear E0.
+    destruct r0; cbn [negb] in H; [|injection H as <- <- <- <-; repeat split; auto].
+    (* STREAM *)
+    unfold ds_transmit in H.
+    destruct (ds_transmit_impl salt s0 c p0) as [[[r1 s1] c1] p1] eqn:Ed.
+    assert (Hrem0 : p_rem p0 <= 65535) by lia.
+    destruct (ds_transmit_impl_ok _ _ _ _ _ _ _ _ _ _ HS0 Hrem0 Ed) as (HS1 & H11 & H12 & H13).
+    destruct (r1 || (p_rem p1 <? p_rem p0))%bool; cbn [negb] in H;
+      [|injection H as <- <- <- <-; repeat split; auto; try lia; congruence].
+    (* STREAM_DATA_BLOCKED *)
+    destruct (p_elicit p1 && ps_delivered (f_sdb (s_fc s1)))%bool.
+    { injection H as <- <- <- <-. split; [|repeat split; try lia; congruence].
+      eapply St_upd; eauto. }
+    destruct (dlv_try (ps_d (f_sdb (s_fc s1))) (p_c p)).
+    - destruct (p_rem p1 <? _) eqn:Er; injection H as <- <- <- <-.
+      + repeat split; auto; try lia; congruence.
+      + split; [|cbn; repeat split; try lia; congruence].
+        destruct HS1 as [m [HG HA]].
+        exists m. split; [eapply GI_step; eauto|].
+        apply Acc_blocked; auto.
+    - injection H as <- <- <- <-. repeat split; auto; try lia; congruence.
+  Qed.
+
+  (* the same over the whole list of streams *)
+  Definition StL (l : list sst) (c : cfc) (p : pkt) (m0 : mon) : Prop :=
+    exists m, (length l = N.to_nat n /\ Rall 0 l (m_streams m) /\
+               sum_acq l + c_avail c = c_total c /\ c_total c = m_limd m) /\ Acc salt n m0 p m.
+
+  Lemma tx_all_ok : forall l pre c p m0 l' c' p',
+    StL (pre ++ l) c p m0 -> p_rem p <= 65535 ->
+    tx_all salt l c p = (l', c', p') ->
+    StL (pre ++ l') c' p' m0.
+  Proof.
+    induction l as [|s t IH]; intros pre c p m0 l' c' p' HS Hrem H; cbn [tx_all] in H.
+    - injection H as <- <- <-. exact HS.
+    - destruct (ss_transmit salt s c p) as [[[r s1] c1] p1] eqn:Es.
+      destruct (ss_transmit_ok pre t m0 s c p r s1 c1 p1 HS Hrem Es) as (HS1 & G1 & G2 & G3).
+      destruct r.
+      + destruct (tx_all salt t c1 p1) as [[t2 c2] p2] eqn:Et. injection H as <- <- <-.
+        assert (Hrem1 : p_rem p1 <= 65535) by lia.
+        assert (HS1' : StL ((pre ++ [s1]) ++ t) c1 p1 m0) by (rewrite <- app_assoc; exact HS1).
+        specialize (IH _ _ _ _ _ _ _ HS1' Hrem1 Et). rewrite <- app_assoc in IH. exact IH.
+      + injection H as <- <- <-. exact HS1.
+  Qed.
+
+  Lemma tx_one_ok : forall i l pre c p m0 l' c' p',
+    StL (pre ++ l) c p m0 -> p_rem p <= 65535 ->
+    tx_one salt i l c p = (l', c', p') ->
+    StL (pre ++ l') c' p' m0.
+  Proof.
+    induction i as [|i IH]; intros [|s t] pre c p m0 l' c' p' HS Hrem H; cbn [tx_one] in H.
+    - injection H as <- <- <-. exact HS.
+    - destruct (ss_transmit salt s c p) as [[[r s1] c1] p1] eqn:Es.
+      destruct (ss_transmit_ok pre t m0 s c p r s1 c1 p1 HS Hrem Es) as (HS1 & _).
+      injection H as <- <- <-. exact HS1.
+    - injection H as <- <- <-. exact HS.
+    - destruct (tx_one salt i t c p) as [[t2 c2] p2] eqn:Et. injection H as <- <- <-.
+      assert (HS' : StL ((pre ++ [s]) ++ t) c p m0) by (rewrite <- app_assoc; exact HS).
+      specialize (IH _ _ _ _ _ _ _ _ HS' Hrem Et). rewrite <- app_assoc in IH. exact IH.
+  Qed.
+
+  Lemma conn_transmit_ok : forall k m t cap cons md k' fs,
+    INV03 n k m -> cap < 65536 ->
+    conn_transmit salt k t cap cons md = (k', fs) ->
+    exists m', chk_frames (chk03 salt n) n m fs = Some m' /\ INV03 n k' m'.
+  Proof.
+    intros k m t cap cons md k' fs (I1 & I2 & I3 & I4) Hcap H. unfold conn_transmit in H. cbv zeta in H.
+    set (p0 := mk_pkt cap (k_pn k) cons []) in *.
+    assert (HA0 : Acc salt n m p0 m) by reflexivity.
+    match type of H with (match ?X with pair _ _ => _ end) = _ => destruct X as [[l c] p] eqn:EX end.
+    injection H as <- <-.
+    assert (HS : StL l c p m).
+    { destruct (((md =? 0) || (md =? 1)) && (can_transmit cons || can_retransmit cons))%bool.
+      - (* DATA_BLOCKED first *)
+        destruct (dlv_try (ps_d (c_dbs (k_flow k))) cons).
+        + destruct (cap <? 1 + vlen (ps_latest (c_dbs (k_flow k)))) eqn:Ec.
+          * injection EX as <- <- <-. exists m. repeat split; auto.
+          * set (c1 := mk_cfc (c_total (k_flow k)) (c_avail (k_flow k)) (ps_sent (c_dbs (k_flow k)) (k_pn k))) in *.
+            set (p1 := p_write p0 (1 + vlen (ps_latest (c_dbs (k_flow k)))) (mk_frame 4 0 (ps_latest (c_dbs (k_flow k))) 0 false [])) in *.
+            assert (HS1 : StL ([] ++ k_streams k) c1 p1 m).
+            { exists m. split; [repeat split; auto|]. apply Acc_blocked; auto. }
+            assert (Hr1 : p_rem p1 <= 65535) by (cbn; lia).
+            destruct t as [|tp].
+            -- apply (tx_all_ok _ [] _ _ _ _ _ _ HS1 Hr1 EX).
+            -- apply (tx_one_ok _ _ [] _ _ _ _ _ _ HS1 Hr1 EX).
+        + assert (HS1 : StL ([] ++ k_streams k) (k_flow k) p0 m) by (exists m; repeat split; auto).
+          assert (Hr1 : p_rem p0 <= 65535) by (cbn; lia).
+          destruct t as [|tp].
+          -- apply (tx_all_ok _ [] _ _ _ _ _ _ HS1 Hr1 EX).
+          -- apply (tx_one_ok _ _ [] _ _ _ _ _ _ HS1 Hr1 EX).
+      - injection EX as <- <- <-. exists m. repeat split; auto. }
+    destruct HS as [m' [(J1 & J2 & J3 & J4) HA]].
+    exists m'. split; [exact HA|]. repeat split; auto.
+  Qed.
+End C03tx.
+
+(* ---------------------------------------------------------------------------------------------- *)
+(* C03: the remaining operations and the theorem                                                    *)
+
+Lemma R03_mw : forall s ms w, R03 s ms -> R03 s (mk_ms w (m_hi ms) (m_fin ms) (m_rst ms) (m_lim ms)).
+Proof. intros s ms w H. exact H. Qed.
+
+Lemma INV03_upd : forall n k m i (F : sst -> sst) (G : mstream -> mstream),
+  INV03 n k m -> keeps F -> (forall s ms, R03 s ms -> R03 s (G ms)) ->
+  INV03 n (with_stream k i F) (with_ms m i G).
+Proof.
+  intros n k m i F G (I1 & I2 & I3 & I4) HK HG. unfold INV03, with_stream, with_ms. cbn.
+  rewrite upd_nth_length. repeat split; auto.
+  - apply Rall_upd; auto.
+    + intros s ms HR. apply HG. apply (HK s). exact HR.
+    + intros s. apply (HK s).
+  - rewrite sum_acq_upd; auto. intros s. apply (HK s).
+Qed.
+
+Lemma with_ms_id : forall m i, with_ms m i (fun x => x) = m.
+Proof. intros [l d] i. unfold with_ms. cbn. now rewrite upd_ms_id. Qed.
+
+Lemma with_stream_const : forall k i (F : sst -> sst),
+  with_stream k i (fun _ => F (get_stream k i)) = with_stream k i F.
+Proof. intros. unfold with_stream, get_stream. now rewrite upd_nth_const. Qed.
+
+Lemma try_acquire_R03 : forall c f c' f' s ms, sfc_try_acquire c f = (c', f') -> s_fc s = f ->
+  R03 s ms -> R03 (set_fc s f') ms.
+Proof.
+  intros c f c' f' s ms H Hf (R1 & R2 & R3 & R4 & R5 & R6 & R7). subst f.
+  pose proof (try_acquire_ok _ _ _ _ H) as (A1 & A2 & A3 & A4 & A5 & A6).
+  assert (Hst : f_st f' = 3 -> f_st (s_fc s) = 3).
+  { unfold sfc_try_acquire in H. destruct (f_st (s_fc s) =? 3) eqn:E3; [injection H as _ <-; auto|].
+    destruct (0 <? f_high (s_fc s) - f_acq (s_fc s)); [|injection H as _ <-; auto].
+    destruct (cfc_acquire c (f_high (s_fc s) - f_acq (s_fc s))) as [c1 a]. injection H as _ <-. cbn.
+    destruct ((0 <? a) && (f_st (s_fc s) =? 2))%bool; [discriminate|auto]. }
+  unfold R03. cbn. repeat split; try lia; try (intros Hd; specialize (R6 Hd); lia); try (intros Hs; auto).
+Qed.
+
+Lemma offer_window_ok : forall l c i ml c' l', Rall i l ml -> offer_window c l = (c', l') ->
+  Rall i l' ml /\ length l' = length l /\ c_total c' = c_total c /\
+  sum_acq l' + c_avail c' = sum_acq l + c_avail c.
+Proof.
+  induction l as [|s t IH]; intros c i ml c' l' HR H; cbn [offer_window] in H.
+  - injection H as <- <-. auto.
+  - destruct ml as [|ms mt]; cbn [Rall] in HR; [contradiction|]. destruct HR as (H1 & H2 & H3).
+    destruct (f_st (s_fc s) =? 2).
+    + destruct (if s_ss s =? 0 then sfc_try_acquire c (s_fc s) else (c, s_fc s)) as [c1 f1] eqn:Ea.
+      assert (Hs1 : R03 (set_fc s f1) ms /\ c_total c1 = c_total c /\ f_acq f1 + c_avail c1 = f_acq (s_fc s) + c_avail c).
+      { destruct (s_ss s =? 0).
+        - pose proof (try_acquire_ok _ _ _ _ Ea) as (A1 & A2 & _). split; [eapply try_acquire_R03; eauto|]. auto.
+        - injection Ea as <- <-. split; [|auto]. destruct s; exact H2. }
+      destruct Hs1 as (HR1 & T1 & T2).
+      destruct (c_avail c1 =? 0).
+      * injection H as <- <-.
+        split; [cbn [Rall]; split; [exact H1|split; [exact HR1|exact H3]]|]. split; [reflexivity|]. split; [exact T1|].
+        cbn [sum_acq fold_right]. fold (sum_acq t). cbn [set_fc s_fc]. lia.
+      * destruct (offer_window c1 t) as [c2 t2] eqn:Eo. injection H as <- <-.
+        destruct (IH _ _ _ _ _ H3 Eo) as (J1 & J2 & J3 & J4).
+        split; [cbn [Rall]; split; [exact H1|split; [exact HR1|exact J1]]|]. split; [cbn [length]; lia|]. split; [lia|].
+        cbn [sum_acq fold_right]. fold (sum_acq t2). fold (sum_acq t). cbn [set_fc s_fc]. lia.
+    + destruct (offer_window c t) as [c2 t2] eqn:Eo. injection H as <- <-.
+      destruct (IH _ _ _ _ _ H3 Eo) as (J1 & J2 & J3 & J4).
+      split; [cbn [Rall]; split; [exact H1|split; [exact H2|exact J1]]|]. split; [cbn [length]; lia|]. split; [lia|].
+      cbn [sum_acq fold_right]. fold (sum_acq t2). fold (sum_acq t). lia.
+Qed.
+
+Theorem judge03_run : forall case, judge03 case (run case) = true.
+Proof.
+  intros case. unfold judge03, judge_with, run.
+  destruct (nx case) as [a r0]. destruct (nx r0) as [b r1]. destruct (nx r1) as [c r2]. destruct (nx r2) as [d r3].
+  set (salt := zN a mod 65536). set (n := zN c mod 4 + 1).
+  assert (Hinit : forall cnt i r, let '(l, r') := mk_streams i cnt (max_buf_of (zN d)) r in
+            let '(ml, r'') := mk_mstreams cnt r in
+            r'' = r' /\ length l = cnt /\ Rall i l ml /\ sum_acq l = 0).
+  { induction cnt as [|cnt IH]; intros i r; cbn [mk_streams mk_mstreams].
+    - repeat split; auto.
+    - destruct (nx r) as [w rr]. specialize (IH (S i) rr).
+      destruct (mk_streams (S i) cnt (max_buf_of (zN d)) rr) as [l r'].
+      destruct (mk_mstreams cnt rr) as [ml r'']. destruct IH as (E1 & E2 & E3 & E4).
+      cbn [length Rall sum_acq fold_right]. fold (sum_acq l).
+      split; [exact E1|]. split; [lia|]. split.
+      { split; [unfold sst_new, sid_initial_bidi_client, stream_id_step; cbn; lia|]. split; [|exact E3].
+        unfold R03, sst_new, sfc_new, m_used. cbn. repeat split; try lia; try (intros H; discriminate H). }
+      cbn. lia. }
+  specialize (Hinit (N.to_nat n) 0%nat r3).
+  destruct (mk_streams 0 (N.to_nat n) (max_buf_of (zN d)) r3) as [l r4].
+  destruct (mk_mstreams (N.to_nat n) r3) as [ml r5]. destruct Hinit as (E1 & E2 & E3 & E4). subst r5.
+  assert (Hn : 0 < n) by (unfold n; generalize (zN c mod 4); intros; lia).
+  set (I := INV03 n).
+  assert (HI0 : I (mk_conn (cfc_new (N.min (zN b) varint_max)) l 0) (mk_mon ml (N.min (zN b) varint_max))).
+  { unfold I, INV03, cfc_new. cbn [k_streams k_flow m_streams m_limd c_avail c_total]. rewrite E4. repeat split; auto. }
+  assert (Hwalk := walk_run_ops chk03 salt n I Hn).
+  match type of Hwalk with ?A -> _ => assert (H1 : A) by (intros k m [HL _]; exact HL); specialize (Hwalk H1); clear H1 end.
+  (* push *)
+  match type of Hwalk with ?A -> _ => assert (H1 : A) end.
+  { intros k m i len res s' HI Hi Ep. split.
+    - unfold ss_push in Ep. repeat match type of Ep with context [if ?b then _ else _] => destruct b end;
+        injection Ep as <- _; unfold Nz; lia.
+    - replace s' with (snd (ss_push (get_stream k i) len)) by (rewrite Ep; reflexivity).
+      rewrite (with_stream_const k i (fun s => snd (ss_push s len))).
+      apply INV03_upd; auto using keeps_push. }
+  specialize (Hwalk H1); clear H1.
+  (* finish *)
+  match type of Hwalk with ?A -> _ => assert (H1 : A) end.
+  { intros k m i res s' HI Hi Ep.
+    replace s' with (snd (ss_finish (get_stream k i))) by (rewrite Ep; reflexivity).
+    rewrite (with_stream_const k i (fun s => snd (ss_finish s))).
+    rewrite <- (with_ms_id m i). apply INV03_upd; auto using keeps_finish. }
+  specialize (Hwalk H1); clear H1.
+  (* reset / stop_sending *)
+  match type of Hwalk with ?A -> _ => assert (H1 : A) end.
+  { intros k m i code app HI Hi. rewrite <- (with_ms_id m i). apply INV03_upd; auto using keeps_reset. }
+  specialize (Hwalk H1); clear H1.
+  (* transmit *)
+  match type of Hwalk with ?A -> _ => assert (H1 : A) end.
+  { intros k m t cap cc md k' fs HI Ht Hc Hcap Et. eapply conn_transmit_ok; eauto. }
+  specialize (Hwalk H1); clear H1.
+  (* ack *)
+  match type of Hwalk with ?A -> _ => assert (H1 : A) end.
+  { intros k m lo hi (I1 & I2 & I3 & I4). unfold I, INV03, conn_ack. cbn. rewrite map_length.
+    repeat split; auto.
+    - apply Rall_map; auto; intros s; try (intros ms); apply (keeps_ack lo hi s).
+    - rewrite sum_acq_map; auto. intros s. apply (keeps_ack lo hi s). }
+  specialize (Hwalk H1); clear H1.
+  (* loss *)
+  match type of Hwalk with ?A -> _ => assert (H1 : A) end.
+  { intros k m lo hi (I1 & I2 & I3 & I4). unfold I, INV03, conn_loss. cbn. rewrite map_length.
+    repeat split; auto.
+    - apply Rall_map; auto; intros s; try (intros ms); apply (keeps_loss lo hi s).
+    - rewrite sum_acq_map; auto. intros s. apply (keeps_loss lo hi s). }
+  specialize (Hwalk H1); clear H1.
+  (* MAX_STREAM_DATA *)
+  match type of Hwalk with ?A -> _ => assert (H1 : A) end.
+  { intros k m i v (I1 & I2 & I3 & I4) Hi. unfold I, INV03, with_stream, with_ms. cbn.
+    rewrite upd_nth_length. repeat split; auto.
+    - apply Rall_upd; auto using msd_R03, msd_sid.
+    - rewrite sum_acq_upd; auto using msd_acq. }
+  specialize (Hwalk H1); clear H1.
+  (* MAX_DATA *)
+  match type of Hwalk with ?A -> _ => assert (H1 : A) end.
+  { intros k m v (I1 & I2 & I3 & I4). unfold I, INV03, conn_max_data.
+    set (c1 := cfc_max_data (k_flow k) v).
+    assert (Hc1 : c_total c1 = N.max (m_limd m) v /\ sum_acq (k_streams k) + c_avail c1 = c_total c1).
+    { unfold c1, cfc_max_data. destruct (v <=? c_total (k_flow k)) eqn:E; cbn; b2p; lia. }
+    destruct Hc1 as [T1 T2].
+    destruct (c_avail c1 =? 0); [cbn [k_streams k_flow m_streams m_limd]; repeat split; auto|].
+    destruct (offer_window c1 (k_streams k)) as [c2 l2] eqn:Eo.
+    destruct (offer_window_ok _ _ _ _ _ _ I2 Eo) as (J1 & J2 & J3 & J4).
+    cbn [k_streams k_flow m_streams m_limd]. repeat split; auto; lia. }
+  specialize (Hwalk H1); clear H1.
+  apply Hwalk. exact HI0.
+Qed.
+
+(* ---------------------------------------------------------------------------------------------- *)
+(* C12, local facts                                                                                 *)
+
+Lemma slice_nth : forall salt k lo len o, lo <= o -> o < lo + len ->
+  nth (N.to_nat (o - lo)) (slice salt k lo len) 0 = payload salt k o.
+Proof.
+  intros salt k lo len o H1 H2. unfold slice.
+  assert (Hlt : (N.to_nat (o - lo) < N.to_nat len)%nat) by lia.
+  rewrite nth_indep with (d' := (fun i => payload salt k (lo + N.of_nat i)) 0%nat) by (rewrite map_length, seq_length; exact Hlt).
+  rewrite (map_nth (fun i => payload salt k (lo + N.of_nat i))). rewrite seq_nth by exact Hlt. cbn [Nat.add]. f_equal. lia.
+Qed.
+
+(* two frames written by transmit_interval that both cover offset o carry the same byte there,
+   whatever the segmentation: both are slices of the position-keyed payload *)
+Theorem retransmission_identical : forall salt k lo1 len1 lo2 len2 o,
+  lo1 <= o -> o < lo1 + len1 -> lo2 <= o -> o < lo2 + len2 ->
+  nth (N.to_nat (o - lo1)) (slice salt k lo1 len1) 0 = nth (N.to_nat (o - lo2)) (slice salt k lo2 len2) 0.
+Proof. intros. rewrite !slice_nth by assumption. reflexivity. Qed.
+
+(* a stream that has been reset (SendStreamState <> Sending, DataSender cancelled and cleared,
+   flow controller finished) writes nothing but its RESET_STREAM *)
+Definition reset_shape (s : sst) : Prop :=
+  s_ss s <> 0 /\ s_ds s = 6 /\ s_lost s = [] /\ s_toff s = 0 /\ s_total s = 0 /\ ps_d (f_sdb (s_fc s)) = DCanc.
+
+Lemma reset_shape_reset : forall s code app, s_ss s = 0 -> s_ds s <> 5 -> reset_shape (ss_reset s code app).
+Proof.
+  intros s code app H0 H5. unfold ss_reset. rewrite H0. change (0 =? 0) with true. cbn [negb].
+  replace (s_ds s =? 5) with false by (symmetry; apply N.eqb_neq; exact H5).
+  unfold reset_shape. cbn. repeat split; auto. discriminate.
+Qed.
+
+Theorem quiet_after_reset : forall salt s c p r s' c' p',
+  reset_shape s -> ss_transmit salt s c p = (r, s', c', p') ->
+  (p_out p' = p_out p \/
+   p_out p' = p_out p ++ [mk_frame 2 (s_sid s) (s_rst_final s) (s_rst_code s) false []]) /\ reset_shape s'.
+Proof.
+  intros salt s c p r s' c' p' (H1 & H2 & H3 & H4 & H5 & H6) H. unfold ss_transmit in H.
+  assert (Hds : forall s0 p0, s_ds s0 = 6 -> s_lost s0 = [] -> s_toff s0 = 0 -> s_total s0 = 0 ->
+            ds_transmit salt s0 c p0 = (true, s0, c, p0)).
+  { intros s0 p0 E1 E2 E3 E4. unfold ds_transmit, ds_transmit_impl. rewrite E2, E3, E4, E1.
+    destruct (can_retransmit (p_c p0)); cbn [tx_set];
+      replace (set_lost s0 []) with s0 by (destruct s0; cbn in *; subst; reflexivity);
+      rewrite E3, E4, E1; change (0 <? 0) with false; rewrite !andb_false_r;
+      change (6 =? 3) with false; change (6 =? 1) with false; cbn [andb orb negb];
+      rewrite N.ltb_irrefl, orb_false_r; reflexivity. }
+  destruct (dlv_try (s_rst s) (p_c p)).
+  - destruct (p_rem p <? _).
+    + injection H as <- <- <- <-. split; [left; reflexivity|]. repeat split; auto.
+    + cbn [negb] in H. rewrite Hds in H by (cbn; assumption). cbn [negb] in H.
+      cbn [set_rst s_fc] in H. rewrite H6 in H. cbn [dlv_try] in H.
+      destruct (p_elicit _ && _)%bool; injection H as <- <- <- <-;
+        (split; [right; reflexivity|]); unfold reset_shape; cbn; repeat split; auto.
+  - cbn [negb] in H. rewrite Hds in H by assumption. cbn [negb] in H. rewrite H6 in H. cbn [dlv_try] in H.
+    destruct (p_elicit _ && _)%bool; injection H as <- <- <- <-;
+      (split; [left; reflexivity|]); unfold reset_shape; cbn; repeat split; auto.
 Qed.
